@@ -400,6 +400,70 @@ def hole_scenario(ctx, idx, seed, root):
     shutil.rmtree(root, ignore_errors=True)
 
 
+BIGFLAGS = ['--test-skip-fallocate', '--test-io-cache', '1']
+
+
+def big_scenario(ctx, idx, seed, root):
+    """large geometry: block sizes of 4..16 MiB and SPARSE files (truncate, nothing is written) so that file sizes, runs of DELETED
+    blocks ('o' records), block runs and the parity size cross 2^31 and 2^32 BYTES; saved by partial syncs only (a full sync would
+    write gigabytes of parity), reloaded by every route (model re-encode, test-rewrite, list / status dumps, history oracle)."""
+    import random
+    rng = random.Random(seed)
+    bs_k = rng.choice([4096, 8192, 16384, 16384])
+    bs = bs_k * 1024
+    K = (1 << 32) // bs                       # blocks in 4 GiB
+    nd = rng.choice([2, 2, 3])
+    hs = rng.choice([16, 16, 8, 2])
+    A = L.Array(root, ctx.tool, ctx.shim, ndisk=nd, npar=rng.choice([1, 2]), hashsize=hs, ncontent=2, blocksize_k=bs_k)
+    T = 1500000000 + rng.randrange(0, 2 ** 28)
+    log = []
+    replay = {'kind': 'big', 'seed': seed, 'log': log}
+    sizes = {}
+    for d in range(nd):
+        nb = rng.choice([K - 1, K, K + 1, K + 2, K // 2, K // 2 + 1]) if d >= 2 else rng.choice([K + 1, K + 2, K + 1 + rng.randrange(0, 40)])
+        size = nb * bs - rng.choice([0, 0, 1, bs - 1, rng.randrange(0, bs)])
+        p = A.dpath(d, b'big%d' % d)
+        with open(p, 'wb') as f:
+            f.truncate(size)
+        sizes[d] = size
+        L.write_file(A.dpath(d, b'zsmall%d' % d), rng.choice([1, 1000, 70000]), rng)      # a disk never loses all its files
+    if os.stat(A.dpath(0, b'big0')).st_blocks * 512 > 1 << 20:
+        shutil.rmtree(root, ignore_errors=True)       # the file system does not keep the files sparse: give up rather than fill it
+        return
+    log.append({'blocksize': bs, 'sizes': sizes})
+    victim = rng.randrange(2)          # both of the first two disks have more than 4 GiB: the DELETED run left by the victim is >= 4 GiB
+    steps = [('sync', ['sync', '-B', '1']), ('delete', None), ('sync', ['sync', '-B', '1']),
+             ('sync', ['sync', '-B', str(rng.choice([1, 2])), '-S', str(rng.choice([0, 1, 2]))]), ('other', ['test-rewrite'])]
+    for k, (kind, args) in enumerate(steps):
+        if args is None:
+            os.remove(A.dpath(victim, b'big%d' % victim))      # its blocks become DELETED blocks, kept where another disk still has blocks
+            continue
+        T += rng.randrange(8, 3000)
+        before = A.content(0)
+        rc, out = A.run(BIGFLAGS + args, now=T, timeout=300)
+        log.append(' '.join(args))
+        with ctx.lock:
+            ctx.stats['commands'] += 1
+            ctx.stats['big_geometry_steps'] = ctx.stats.get('big_geometry_steps', 0) + 1
+        tag = 'G%d_%d_%s' % (idx, k, args[0])
+        if rc != 0:
+            ctx.viol(tag + '_rc', '%s: `%s` exits %d on a large-geometry array (blocksize %d, sizes %s): %s' % (tag, ' '.join(args), rc, bs, sizes, out[-300:].decode('latin1')), replay)
+            break
+        after = A.content(0)
+        history_check(ctx, before, after, kind, tag, replay, hs)
+        if after:
+            try:
+                pa = CT.parse(after, 16)
+                runs = [len(d['deleted']) for d in pa['disks'].values()]
+                with ctx.lock:
+                    ctx.stats['big_deleted_run_max_bytes'] = max(ctx.stats.get('big_deleted_run_max_bytes', 0), max(runs + [0]) * bs)
+                    ctx.stats['big_file_max_bytes'] = max(ctx.stats.get('big_file_max_bytes', 0), max(sizes.values()))
+            except Exception:
+                pass
+        check_saved(ctx, A, T, tag, replay, BIGFLAGS)
+    shutil.rmtree(root, ignore_errors=True)
+
+
 def uuid_scenario(ctx, idx, seed, root):
     """disk UUIDs (--test-fake-uuid gives the first two data lines the ids fake-uuid-2 / fake-uuid-1): a map without UUID gets the one
     of its disk at the next save; a disk renamed in the configuration is found again through its UUID and its map is renamed;
@@ -1049,6 +1113,8 @@ def replay_case(path):
     kind = rp.get('kind')
     if kind == 'scenario':
         scenario(ctx, 0, rp['seed'], rp['steps'], os.path.join(root, 'a'))
+    elif kind == 'big':
+        big_scenario(ctx, 0, rp['seed'], os.path.join(root, 'a'))
     elif kind == 'uuid':
         uuid_scenario(ctx, 0, rp['seed'], os.path.join(root, 'a'))
     elif kind == 'hole':
@@ -1147,6 +1213,8 @@ def main(tier, replay=None):
             jobs.append(ex.submit(scenario, ctx, i, rng.getrandbits(48), steps, os.path.join(base, 'A%d' % i)))
         for i in range(60 if thorough else 16):
             jobs.append(ex.submit(hole_scenario, ctx, i, rng.getrandbits(48), os.path.join(base, 'H%d' % i)))
+        for i in range(12 if thorough else 4):
+            jobs.append(ex.submit(big_scenario, ctx, i, rng.getrandbits(48), os.path.join(base, 'BG%d' % i)))
         for i in range(24 if thorough else 6):
             jobs.append(ex.submit(uuid_scenario, ctx, i, rng.getrandbits(48), os.path.join(base, 'U%d' % i)))
         for i in range(ngen):
